@@ -327,3 +327,45 @@ def reader_positions_unchanged(repo, rep, rule, prefixes=("wavespectra.input.", 
                      anchor=f"reader-lon-mod:{fi.short}")
     rep.ok(rule, "readers", f"{n} functions", "no longitude is folded into another convention while reading")
     rep.floor(rule, "reader functions scanned", n, 60)
+
+
+# ---------------------------------------------------------------------------------------------------------------------
+def real_columns_not_truncated(repo, rep, rule, qual="wavespectra.output.octopus.to_octopus"):
+    """The row format handed to np.savetxt for the spectral blocks holds real-valued columns only (direction label, densities, direction sum):
+    an integer conversion (`{:d}` -> `%d`) truncates 14.999999999999998 to 14 instead of rounding it to 15 - labels and the bin width the reader
+    derives from them come back wrong."""
+    import re
+    fi = repo.func(qual)
+    sv = [c for c in ast.walk(fi.node) if isinstance(c, ast.Call) and unparse(c.func).split(".")[-1] == "savetxt"]
+    fmt_names = set()
+    for c in sv:
+        f = next((k.value for k in c.keywords if k.arg == "fmt"), c.args[2] if len(c.args) > 2 else None)
+        if isinstance(f, ast.Name):
+            fmt_names.add(f.id)
+    if not fmt_names:
+        raise AnalysisError(f"{rule}: {fi.short}: no np.savetxt(fmt=<name>) found")
+    # every name the format is built from (transitively)
+    changed = True
+    defs = [a for a in ast.walk(fi.node) if isinstance(a, ast.Assign) and len(a.targets) == 1 and isinstance(a.targets[0], ast.Name)]
+    while changed:
+        changed = False
+        for a in defs:
+            if a.targets[0].id in fmt_names:
+                for x in ast.walk(a.value):
+                    if isinstance(x, ast.Name) and x.id not in fmt_names and any(d.targets[0].id == x.id for d in defs):
+                        fmt_names.add(x.id); changed = True
+    n = 0
+    for a in defs:
+        if a.targets[0].id not in fmt_names:
+            continue
+        for k in ast.walk(a.value):
+            if isinstance(k, ast.Constant) and isinstance(k.value, str) and ("{" in k.value or "%" in k.value):
+                n += 1
+                if re.search(r"\{:[^}]*[dixX]\}|%[0-9]*[dixX]", k.value):
+                    rep.fail(rule, fi.file, a.lineno, fi.qualname, unparse(a)[:100],
+                             "a column of the spectral block is written with an integer conversion: real values are truncated towards zero, not rounded "
+                             "(14.999999999999998 -> 14), so the directions read back - and the bin width derived from them - differ from what was written",
+                             anchor=f"int-format:{fi.short}")
+                else:
+                    rep.ok(rule, f"{fi.file}:{a.lineno} {fi.short}", k.value[:40], "floating-point conversion (rounds)")
+    rep.floor(rule, "format literals of the savetxt row format", n, 2)
